@@ -120,7 +120,7 @@ def setup(ctx):
 # ------------------------------------------------------------------------------------------
 def make_field(rng, n, n_pol, noise_kind, real=False):
     shape = (2, n) if n_pol == 2 else (n,)
-    amp = 10 ** rng.uniform(-4, 0)
+    amp = 10 ** rng.uniform(-4, 0) if rng.integers(8) else 10 ** float(rng.choice([-13, -10, -8, 3]))     # incl. extreme absolute scales
     s = rng.normal(0, 1, shape) * amp
     if real and rng.integers(3) == 0:
         s = rng.integers(-5, 6, shape)            # integer-valued (int dtype) field
